@@ -401,6 +401,64 @@ def C02(tier, seed, st):
     return res
 
 
+def run_Q(res, histories, judge_op):
+    """histories: lists of op lines, each run in ONE fresh process in order.  Every op result is judged on its
+    own against the specification (results must not depend on the history): judge_op(op, impl, spec) -> reason"""
+    qlines = ["Q " + "|".join(h) for h in histories]
+    impl = common.run_impl(qlines)
+    model = common.run_model(qlines, "model")
+    flat = [op for h in histories for op in h]
+    uniq = sorted(set(op for op in flat if op[0] in "ECL"))
+    specd = dict(zip(uniq, common.run_model(uniq, "spec")))
+    for h, ql, i, m in zip(histories, qlines, impl, model):
+        res.evaluations += 1
+        res.count("Q/len%d" % min(len(h), 9))
+        res.nontrivial.add(ql)
+        changed = "BUFFERS-CHANGED" in i
+        i0 = i.split(" BUFFERS-CHANGED")[0]
+        ir, mr = i0.split(" | "), m.split(" | ")
+        if changed:
+            res.violation(stream="Q", case=ql, impl=i, model=m, spec="caller-owned buffers unchanged", why="a caller-owned buffer or a previously returned value was modified by a later call")
+            continue
+        if len(ir) != len(h):
+            res.violation(stream="Q", case=ql, impl=i, model=m, spec="", why="history did not complete: " + i[:200])
+            continue
+        bad = None
+        for k, (op, r) in enumerate(zip(h, ir)):
+            why = judge_op(op, r, specd.get(op))
+            if why:
+                bad = (k, op, r, why)
+                break
+        if bad:
+            k, op, r, why = bad
+            res.violation(stream="Q", case=ql, impl=i, model=m, spec=specd.get(op), failing_op=op, failing_op_index=k, why=why)
+        else:
+            for k, (op, a, b) in enumerate(zip(h, ir, mr)):
+                a2 = a.rsplit(" reads=", 1)[0] if op[0] == "N" else a
+                if op[0] == "S":
+                    continue
+                if a2 != b:
+                    res.corr_break(stream="Q", case=ql, impl=i, model=m, failing_op=op, why="model and implementation differ in a history")
+                    break
+    if qlines:
+        res.sample({"history": qlines[0][:400], "impl": impl[0][:300]})
+    res.streams["Q"] = res.streams.get("Q", 0) + len(qlines)
+    return impl
+
+
+def judge_op_validator(op, r, sp):
+    f = op.split()
+    if f[0] != "C" or sp is None:
+        return None
+    icls, iv = parse_C(r)
+    if sp == "unspecified":
+        return "accepted under an unsupported Language value" if (icls == "nil" or iv == "1") else None
+    sacc, scls, xs = parse_spec_C(sp)
+    if (iv == "1") != (icls == "nil"):
+        return "IsMnemonicValid disagrees with CheckMnemonic == nil"
+    return judge_common("hist", None, icls, iv, sacc, scls, xs, f[1])
+
+
 def C03(tier, seed, st):
     res = Result("C03")
     rng = random.Random(seed)
@@ -426,6 +484,14 @@ def C03(tier, seed, st):
         idx = gens.indices_of_entropy(rng.randbytes(16))
         items.append(("unsupported", u, gens.sentence("English", idx), None))
     run_C(res, items, lambda *a: judge_common(*a))
+    # the same string validated under one language and then asked under others, in one process
+    hist = []
+    for lang in LANGS:
+        for n in (rng.sample(WORD_COUNTS, 2) if q else WORD_COUNTS):
+            sent = hx(gens.sentence(lang, gens.indices_of_entropy(rng.randbytes(n // 3 * 4)), b" "))
+            others = rng.sample([l for l in LANGS if l != lang] + UNSUPPORTED[:3], 4)
+            hist.append(["C %s %s" % (lang, sent)] + ["C %s %s" % (o, sent) for o in others] + ["C %s %s" % (lang, sent)])
+    run_Q(res, hist, judge_op_validator)
     # all 2048 candidate last words for a prefix: count and set against the specification
     prefixes = []
     for lang in (rng.sample(LANGS, 3) if q else LANGS):
